@@ -457,6 +457,39 @@ func vShorthandsVsLonghands() (int, []string) {
 			}
 		}
 	}
+	// css-grid-2 §8.4: grid-area is row-start / column-start / row-end / column-end; an omitted column-start or
+	// row-end copies row-start when that is a custom ident, an omitted column-end copies column-start when THAT is
+	// one, and is auto otherwise; grid-row / grid-column are start / end with the same rule. One message per
+	// declaration, longhands in a fixed order (it names the finding on the order of the grid-area lines).
+	for _, pair := range [][2]string{
+		{"grid-area: 1 / 2 / 3 / 4", "grid-row-start: 1; grid-column-start: 2; grid-row-end: 3; grid-column-end: 4"},
+		{"grid-area: a", "grid-row-start: a; grid-column-start: a; grid-row-end: a; grid-column-end: a"},
+		{"grid-area: 2", "grid-row-start: 2; grid-column-start: auto; grid-row-end: auto; grid-column-end: auto"},
+		{"grid-area: a / b", "grid-row-start: a; grid-column-start: b; grid-row-end: a; grid-column-end: b"},
+		{"grid-area: 1 / c / 2", "grid-row-start: 1; grid-column-start: c; grid-row-end: 2; grid-column-end: c"},
+		{"grid-area: 1 / 2 / c", "grid-row-start: 1; grid-column-start: 2; grid-row-end: c; grid-column-end: auto"},
+		{"grid-area: a / 2 / b", "grid-row-start: a; grid-column-start: 2; grid-row-end: b; grid-column-end: auto"},
+		{"grid-row: a", "grid-row-start: a; grid-row-end: a"},
+		{"grid-row: 1 / 3", "grid-row-start: 1; grid-row-end: 3"},
+		{"grid-column: 2", "grid-column-start: 2; grid-column-end: auto"},
+		{"grid-column: span 2 / c", "grid-column-start: span 2; grid-column-end: c"},
+	} {
+		n++
+		got, want := vDeclared(pair[0]), vDeclared(pair[1])
+		if len(want) < 2 {
+			fails = append(fails, fmt.Sprintf("%q: %d longhands understood", pair[1], len(want)))
+			continue
+		}
+		diff := ""
+		for _, k := range []pr.KnownProp{pr.PGridRowStart, pr.PGridColumnStart, pr.PGridRowEnd, pr.PGridColumnEnd} {
+			if w, ok := want[k]; ok && !reflect.DeepEqual(got[k], w) {
+				diff += fmt.Sprintf(" %s is %v not %v;", k, got[k], w)
+			}
+		}
+		if diff != "" {
+			fails = append(fails, fmt.Sprintf("%q:%s", pair[0], diff))
+		}
+	}
 	// spelling: keywords, units and property names are ASCII case-insensitive (CSS Syntax 3 §4, css-values §3.1):
 	// the upper-case spelling of a declaration assigns what the lower-case spelling assigns, and something
 	for _, text := range []string{
@@ -640,3 +673,50 @@ func vDeclarationsNoPanic() (int, []string) {
 //@   loop 1 invariant rangeindex >= 0 ==> (inf0 || int0) && (inf0 ==> values[0] == -2147483648) && (int0 ==> values[0] == tokens[0].(pa.Number).Int())
 //@   loop 1 invariant rangeindex >= 1 ==> (inf1 || int1) && (inf1 ==> values[1] == 2147483647) && (int1 ==> values[1] == tokens[1].(pa.Number).Int())
 //@   loop 1 decreases 2 - rangeindex
+
+// bounded stand-in (C07): the functional notations of generated content. Their parsers pop arguments one by one
+// behind an argument-count guard. vContentFunctions feeds `content`, `string-set` and `bookmark-label` every call
+// of 13 functions with zero to four arguments over six argument shapes (a string, attr(), two identifiers, a url, a
+// number), comma separated: 13 x 1 555 argument lists x 3 properties. A declaration may be dropped; none may panic.
+func vContentFunctions() (n int, fails []string) {
+	logger.WarningLogger.SetOutput(io.Discard)
+	defer logger.WarningLogger.SetOutput(os.Stdout)
+	names := []string{"target-counter", "target-counters", "target-text", "counter", "counters", "string", "attr", "element", "leader", "content", "url", "symbols", "running"}
+	shapes := []string{`"#a"`, "attr(href)", "page", "decimal", "url(a)", "2"}
+	var lists []string
+	var rec func(prefix string, depth int)
+	rec = func(prefix string, depth int) {
+		lists = append(lists, prefix)
+		if depth == 4 {
+			return
+		}
+		for _, s := range shapes {
+			if prefix == "" {
+				rec(s, depth+1)
+			} else {
+				rec(prefix+", "+s, depth+1)
+			}
+		}
+	}
+	rec("", 0)
+	for _, name := range names {
+		for _, args := range lists {
+			call := name + "(" + args + ")"
+			for _, decl := range []string{"content: " + call, "string-set: title " + call, "bookmark-label: " + call} {
+				n++
+				func() {
+					defer func() {
+						if r := recover(); r != nil && len(fails) < 6 {
+							fails = append(fails, fmt.Sprintf("%q: panic: %v", decl, r))
+						}
+					}()
+					PreprocessDeclarations("http://x/", pa.ParseDeclarationListString(decl, false, false))
+				}()
+			}
+		}
+	}
+	return n, fails
+}
+
+//@ bounded vContentFunctions content, string-set and bookmark-label with every call of 13 functional notations (target-counter(s), target-text, counter(s), string, attr, element, leader, content, url, symbols, running) with 0 to 4 comma-separated arguments over 6 argument shapes (60 645 declarations): no panic
+//@   props C07 C01
